@@ -38,6 +38,8 @@ func main() {
 		runEntity(*in, *out, *seed)
 	case "nego":
 		runNego(*in, *out, *seed)
+	case "builder":
+		runBuilder(*in, *out, *seed)
 	default:
 		fmt.Fprintf(os.Stderr, "unknown driver %q\n", driver)
 		os.Exit(2)
